@@ -372,6 +372,30 @@ class Sym:
             return ctx().decide(z3.Length(s.t) > 0, "str-nonempty")
         return ctx().decide(s.t != 0, "nonzero")
 
+    def __getitem__(s, k):
+        """string slicing / indexing (z3 sequence theory); only for String-sorted proxies"""
+        if s.t.sort() != STR:
+            raise Unsupported("subscript of a symbolic scalar")
+        n = z3.Length(s.t)
+        def norm(v, default):
+            if v is None:
+                return default
+            t = lift(v)
+            if isinstance(v, int):
+                return (n + v) if v < 0 else z3.IntVal(v)
+            return z3.If(t < 0, n + t, t)
+        def clamp(t):
+            return z3.If(t < 0, z3.IntVal(0), z3.If(t > n, n, t))
+        if isinstance(k, slice):
+            if k.step not in (None, 1):
+                raise Unsupported("string slice step")
+            lo, hi = clamp(norm(k.start, z3.IntVal(0))), clamp(norm(k.stop, n))
+            return Sym(z3.SubString(s.t, lo, z3.If(hi > lo, hi - lo, z3.IntVal(0))))
+        i = norm(k, None)
+        if not ctx().decide(z3.And(i >= 0, i < n), "str-index-in-range"):
+            raise IndexError("string index out of range")
+        return Sym(z3.SubString(s.t, i, 1))
+
     def __hash__(s):
         raise Unsupported("hash of a symbolic value (dict/set keyed by a symbolic value)")
 
